@@ -44,6 +44,17 @@ def classify_tool(p):
     return "other"
 
 
+def panic_site(stderr):
+    """(file, slug): where and why the tool panicked, stable under unrelated edits (no line numbers, no type names)"""
+    import re
+    m = re.search(r"panicked at ([^\s:]+):(\d+):\d+:\n([^\n]*)", stderr)
+    if not m:
+        return "?", "?"
+    msg = re.sub(r'"[^"]*"|`[^`]*`|\'[^\']*\'|\d+', "", m.group(3))
+    slug = re.sub(r"[^A-Za-z]+", "-", msg).strip("-")[:48]
+    return m.group(1), slug
+
+
 CARGO_TOML = """[package]
 name = "{name}"
 version = "0.0.0"
